@@ -32,6 +32,7 @@ func checkC09(c *Ctx, r *Report) {
 	checkRowScan(c, r)
 	checkHintForwarding(c, r)
 	checkCode128RoundTrip(c, r) // the Code 128 reader's state machine returns what the writer wrote (no silent trimming)
+	checkQRAlnumPair(c, r)      // the reader's alphanumeric table is the writer's and the standard's: a symbol that passes every check is not read as other characters (also C01)
 	r.Rule("S-RSACCEPT", "ReedSolomonDecoder.Decode, folded from source with everything it calls over every one of the 16^3 words of length 3 with 2 check symbols - in GF(16) with generator base 1 (the Data Matrix / Aztec convention) and base 0 (the QR convention) - either reports an error or leaves a codeword at most one symbol away from the word it was given: a sampled grid that is not within the correction radius of a codeword is rejected, never delivered", 2)
 	accDoms := []rsAcceptDom{{newRefGF(0x13, 16, 1), "GF(16)/0x13 base 1", 3, 2}, {newRefGF(0x13, 16, 0), "GF(16)/0x13 base 0", 3, 2}}
 	if c.Tier == "thorough" {
